@@ -146,6 +146,14 @@ def task_id(task):
 KEEP = []
 
 
+class FloatSub(float):
+    """a numeric result whose exact type is a subclass of float (numpy.float64, unit-carrying floats, ...)"""
+
+
+class IntSub(int):
+    """a numeric result whose exact type is a subclass of int (IntEnum members, numpy ints, ...)"""
+
+
 def res_code(delta):
     if isinstance(delta, (int, float)) and not isinstance(delta, bool):
         if not math.isfinite(delta):
@@ -450,7 +458,7 @@ class Run:
                 return True
             if r[0] == 'num':
                 return {'i0': 0, 'f0': 0.0, 'nf0': -0.0, 'false': False, 'true': True, 'inf': float('inf'), 'nan': float('nan'),
-                        'i1': 1, 'empty': '', 'list': []}[r[1]]
+                        'i1': 1, 'empty': '', 'list': [], 'fsub': FloatSub(1 / 64), 'isub': IntSub(0)}[r[1]]
             if r[0] == 'base_exc':
                 raise KeyboardInterrupt
             if r[0] == 'exc':
